@@ -104,6 +104,25 @@ func intModeBinop(op token.Token, x, y value) value {
 		return symv{arith("-", IntSort, a, b), k}
 	case token.MUL:
 		return symv{arith("*", IntSort, a, b), k}
+	case token.SHL:
+		// shift by a concrete count with two's-complement wrap-around of the 64-bit result
+		if b.Op == "const" && kindWidth(k) == 64 {
+			cnt := b.Val
+			if cnt >= 64 {
+				return mkScalar(IConst(0), k)
+			}
+			pow := newTerm("rconst", IntSort)
+			pow.Name = new(big.Int).Lsh(big.NewInt(1), uint(cnt)).String()
+			two63 := newTerm("rconst", IntSort)
+			two63.Name = new(big.Int).Lsh(big.NewInt(1), 63).String()
+			two64 := newTerm("rconst", IntSort)
+			two64.Name = new(big.Int).Lsh(big.NewInt(1), 64).String()
+			prod := arith("*", IntSort, a, pow)
+			if kindSigned(k) {
+				return symv{arith("-", IntSort, arith("mod", IntSort, arith("+", IntSort, prod, two63), two64), two63), k}
+			}
+			return symv{arith("mod", IntSort, prod, two64), k}
+		}
 	case token.LSS:
 		return mkScalar(arith("<", BoolSort, a, b), types.Bool)
 	case token.LEQ:
@@ -177,6 +196,17 @@ func init() {
 		e, ok2 := args[1].(float64)
 		if ok1 && ok2 {
 			return math.Pow(b, e)
+		}
+		if ok1 && b == 2 {
+			if ef, isf := args[1].(symf); isf {
+				// 2^e for a symbolic exponent the path condition forces to be >= 64: some real >= 2^64
+				// (covers every finite value and, for the comparisons that follow, +Inf as well)
+				if !X.feasible(arith("<", BoolSort, ef.t, RConst(64))) {
+					p := X.fresh("pow2", RealSort)
+					X.addPC(arith(">=", BoolSort, p, RConst(18446744073709551616.0)))
+					return symf{p}
+				}
+			}
 		}
 		panic(abortPath{"float model: math.Pow with symbolic arguments"})
 	}
